@@ -1,6 +1,7 @@
 import MM.Engine.Basic
 import MM.Model.C04
 import MM.Model.Bytes
+import MM.Gen.C04
 
 /-
   Engine c04: predictions for the unit-level and mesh-level ops of harness/main/eng_c04.go, computed
@@ -19,15 +20,18 @@ def emit (m : Mode) (n : Nat) : String :=
   | .plaintext => "plain"
   | .refuse => "err"
 
-/-- Mode of an endpoint holding (or not holding) a session key, as `decide` yields it for the peer
-    key that leads there: a held key came from an honest peer key, no key from an all-zero one. -/
+/-- Zero-key tables of the tree under test (probed on the compiled code, MM/Gen/C04.lean). -/
+def T : Tables := tablesOf Gen.C04.ingressFallsBack Gen.C04.exitFallsBack
+
+/-- Mode of an exit-side endpoint holding (or not holding) a session key: a held key came from an
+    honest peer key, no key from an all-zero one. -/
 def modeFor (kd : Kind) (hasKey : Bool) : Mode :=
-  decide kd .exit false 1 (if hasKey then .pub .ingress else .zeroKey)
+  decideWith T.exit kd .exit false 1 (if hasKey then .pub .ingress else .zeroKey)
 
 def stepLine (line : String) : String :=
   match tokens line with
   | ["seal", p] => match hexLen p with
-    | some n => emit (decide .tcp .ingress true 1 (.pub .exit)) n
+    | some n => emit (decideWith T.ingress .tcp .ingress true 1 (.pub .exit)) n
     | none => "bad-op"
   | ["assoc", k, p] => match hexLen p with
     -- an empty payload is returned unchanged only in plaintext mode; sealed output is never equal to its input
@@ -37,15 +41,25 @@ def stepLine (line : String) : String :=
     | some n => emit (modeFor .icmp (k == "1")) n
     | none => "bad-op"
   | ["icmpinit", z] =>
-    match decide .icmp .ingress true 5 (if z == "zero" then .zeroKey else .pub .exit) with
+    match decideWith T.ingress .icmp .ingress true 5 (if z == "zero" then .zeroKey else .pub .exit) with
     | .sealWith _ => "key"
     | .plaintext => "nil"
     | .refuse => "err"
   | ["respkey", z] =>
-    match decide .file .exit false 5 (if z == "zero" then .zeroKey else .pub .ingress) with
+    match decideWith T.exit .file .exit false 5 (if z == "zero" then .zeroKey else .pub .ingress) with
     | .sealWith _ => "key"
     | .plaintext => "nil"
     | .refuse => "err"
+  | ["mesh", "udpzero", p] =>
+    -- active transit zeroing both key fields: what the model's wire shows to the transit
+    (match hexLen p with
+     | some _ =>
+       let t : Tamper := ⟨.zero, .zero⟩
+       let frames := wireWith T .udp t 1 2 3 [7] [7]
+       let leak := (frames.filter fun f => !(visibleFrame [.transit] f).isEmpty).length
+       let echo := (ingressMode T .udp 1 t).established && (exitMode T .udp 1 t).established
+       s!"ok echo {if echo then 1 else 0} leak {leak}"
+     | none => "bad-op")
   | ["mesh", kd, p] =>
     if kd = "file" ∨ kd = "shell" then
       (match hexLen p with
@@ -65,10 +79,14 @@ def stepLine (line : String) : String :=
 def spec (op out : String) : String :=
   if out.startsWith "panic" ∨ out.startsWith "crash" then "fail crashed"
   else match tokens op, tokens out with
-    | "assoc" :: _, ["plain"] => "fail plaintext-fallback-udp"
-    | "icmpsess" :: _, ["plain"] => "fail plaintext-fallback-icmp"
+    -- exit-side wrappers without a key: plaintext mode exists by itself only as a capability; it is a
+    -- violation when an endpoint HOLDING a key emits plaintext
+    | ["assoc", "1", _], ["plain"] => "fail plaintext-despite-key-udp"
+    | ["icmpsess", "1", _], ["plain"] => "fail plaintext-despite-key-icmp"
+    | ["mesh", "udpzero", _], ["ok", "echo", _, "leak", l] =>
+      if l = "0" then "ok" else "fail plaintext-fallback-at-transit key fields zeroed by the transit"
     | "seal" :: _, ["plain"] => "fail plaintext-stream"
-    | ["icmpinit", "zero"], ["nil"] => "fail plaintext-fallback-icmp zero peer key accepted without a session key"
+    | ["icmpinit", "zero"], ["nil"] => "fail plaintext-fallback-icmp-ingress zero peer key accepted without a session key"
     | ["icmpinit", "zero"], ["key"] => "fail zero-key-accepted"
     | ["respkey", "zero"], ["key"] => "fail zero-key-accepted"
     | _, ["sealed", _, "leak", l] => if l = "0" then "ok" else "fail payload-in-ciphertext"
